@@ -261,6 +261,20 @@ impl DbValue {
         value_index: DbValueIndex,
         storage: &Storage<D>,
     ) -> Result<DbValue, DbError> {
+        if matches!(
+            value_index.get_type(),
+            I64_META_VALUE | U64_META_VALUE | F64_META_VALUE
+        ) && value_index.value().len() != std::mem::size_of::<u64>()
+        {
+            return Err(DbError::db(
+                DbErrorType::NotEnoughData,
+                format!(
+                    "Invalid value index: numeric value of {} bytes",
+                    value_index.value().len()
+                ),
+            ));
+        }
+
         Ok(match value_index.get_type() {
             BYTES_META_VALUE => {
                 if value_index.is_value() {
